@@ -5,13 +5,13 @@
  "enforce": ["aws_sign"],
  "replace": [],
  "annotate": ["aws/aws_sign.c"],
- "defines": ["VERIF_HALLOC", "C19_SMAX=8", "C19_CREQMAX=8", "VERIF_STRMAX=160", "AWS_MMAX=160", "AWS_OUTMAX=160", "AWS_FMTMAX=64", "AWS_KMAX=40"],
- "thorough_defines": ["C19_SMAX=16", "C19_CREQMAX=16", "VERIF_STRMAX=200", "AWS_MMAX=200", "AWS_OUTMAX=200"],
+ "defines": ["VERIF_HALLOC", "C19_SMAX=8", "C19_CREQMAX=8", "VERIF_STRMAX=40", "AWS_MMAX=32", "AWS_KMAX=32", "AWS_FMTMAX=336"],
+ "thorough_defines": ["C19_SMAX=24", "C19_CREQMAX=24", "C19_BMAX=32"],
  "models": ["models/libc_string.c", "models/aws_hash.c", "models/aws_fmt.c", "models/aws_time.c"],
  "instrument_flags": ["--nondet-static-exclude", "hexchars"],
  "loop_contracts": false,
  "bounded": true,
- "bound": "secret, region, service, canonical request: every string of <= 8 characters (thorough: 16), date <= 8, datetime <= 16 characters, all byte values; formatted strings compared in normal form (models/aws_stream.h), not as rendered bytes; every loop has a compile-time-constant bound and is fully unwound (unwinding assertions on)",
+ "bound": "secret, region, service, canonical request: every string of <= 8 characters (thorough: 24), date <= 8, datetime <= 16 characters, all byte values; formatted strings compared in normal form (models/aws_stream.h), not as rendered bytes; every loop has a compile-time-constant bound and is fully unwound (unwinding assertions on)",
  "timeout": 600,
  "assumptions": ["SHA256_Buf/HMAC_SHA256_Buf are abstract logging leaves (models/aws_hash.c, G2): their conformance is C01's",
                  "asprintf is modelled (models/aws_fmt.c): records what is to be printed for %s %d %% in normal form, result bytes abstract; util/asprintf.c itself is not part of the proof (DFCC cannot instrument variadic functions); util/hexify.c is the real code",
@@ -33,7 +33,8 @@ h_sign_chain(void)
 	char sigbuf[65];
 	char spec_sig[65];
 	sv4_str s_secret, s_date, s_datetime, s_region, s_service, s_creq;
-	int rc;
+	int rc, same;
+	size_t i;
 
 	C19_MODELS_RESET();
 	C19_REG(C19_ID_SECRET, secret);
@@ -62,7 +63,10 @@ h_sign_chain(void)
 		C19_SPEC_BEGIN(0);
 		sv4_signature(&s_secret, &s_date, &s_datetime, &s_region, &s_service, &s_creq, spec_sig);
 		C19_SPEC_END();
-		__CPROVER_assert(memcmp(sigbuf, spec_sig, 65) == 0, "SigV4: the signature is the hex of HMAC(kSigning, StringToSign)");
+		for (i = 0, same = 1; i < 65; i++)
+			if (sigbuf[i] != spec_sig[i])
+				same = 0;
+		__CPROVER_assert(same, "SigV4: the signature is the hex of HMAC(kSigning, StringToSign)");
 	}
 	VCOVER(rc == 0 && strlen(secret) == C19_SMAX && strlen(region) == 0);
 	VCOVER(rc == 0 && strlen(secret) == 0 && strlen(region) == C19_SMAX && strlen(service) == 1 && strlen(date) == 8);
